@@ -84,6 +84,10 @@ func (p *Core) Exec(w *sim.World, op sim.Op) {
 		p.execAttack(op)
 	case "grant":
 		p.execGrant(op)
+	case "gexp":
+		p.execGenesisRestart(op)
+	case "lostc":
+		p.execLostCommit(op)
 	case "rereg":
 		// the creator (N=0) or a stranger (N=1) submits the counterparty registration again,
 		// byte for byte what was registered at setup
@@ -220,7 +224,7 @@ func (p *Core) execRelay(op sim.Op) {
 		on, of, cli = ps.Src, ps.Dst, ps.SrcCli
 	}
 	h := op.M
-	if h < 3 || (h > of.Height && !ps.Local) { // proofs need state version >= 2
+	if h < 3 || (h > of.Height && !ps.Local) || (!ps.Local && h-1 < of.MinVersion) { // proofs need a state version the node still has
 		w.Noop()
 		return
 	}
@@ -327,7 +331,7 @@ func (p *Core) execCloseConfirm(op sim.Op) {
 	}
 	e := int(op.X & 1)
 	on, of := r.Chain[e], r.Chain[1-e]
-	if op.M < 3 || op.M > of.Height {
+	if op.M < 3 || op.M > of.Height || (!r.Local && op.M-1 < of.MinVersion) {
 		p.w.Noop()
 		return
 	}
